@@ -56,11 +56,27 @@ theorem discGuard_iff (r : Rep) (d : XRat) : (discGuard r).eval d = false ↔ Di
 
 /-! ## tight validity: with the stored rows re-validated, sparse objects keep rows within the plain tolerance -/
 
-/-- row predicate per representation, at full strength: dense = finite, ≥ 0, |Σ−1| ≤ tol;
-    sparse = finite, ≥ −tol, |Σ−1| ≤ tol (what isProbability(SparseMatrix2D) guarantees) -/
+/-- OBLIGATION over the regenerated source fact: `isProbability(const SparseMatrix2D &)` tests the sign of every stored value
+    (fixes/C05-2, repo 54353bc).  False of the tree as first read, where entries in [-tol/2, 0) passed
+    (`isProbSparseAbs_accepts_negative`). -/
+theorem sparse_sign_test : AITB.Gen.C06Sites.sparseSignTest = true := by decide
+
+/-- hence the sparse validator, as the source is now, is EXACT: it accepts precisely the finite, non-negative rows that sum to
+    one within the tolerance — the same rows as the dense validator -/
+theorem isProbSparse_iff (row : List XRat) : isProbSparse row = true ↔ RowS row := by
+  unfold isProbSparse
+  rw [sparse_sign_test]
+  exact isProbSparseSign_iff row
+
+theorem isProbSparse_eq_dense (row : List XRat) : isProbSparse row = isProbDense row := by
+  unfold isProbSparse
+  rw [sparse_sign_test]; rfl
+
+/-- row predicate at full strength, the SAME for both representations since the sparse validator tests signs: finite, ≥ 0,
+    |Σ−1| ≤ tol.  (Before fixes/C05-2 the sparse case was only `RowDist (-tol) tol`.) -/
 def rowT : Rep → List XRat → Prop
   | .dense => RowS
-  | .sparse => RowDist (-tol) tol
+  | .sparse => RowS
 
 structure ValidT (k : Kind) (s : St) : Prop where
   disc : DiscOK s.disc
@@ -68,11 +84,10 @@ structure ValidT (k : Kind) (s : St) : Prop where
   Om : RowsOK (rowT k.obs) s.Om
 
 theorem rowT_of_RowS (r : Rep) {row : List XRat} (h : RowS row) : rowT r row := by
-  cases r with
-  | dense => exact h
-  | sparse =>
-      obtain ⟨qs, hq, hge, h1, h2⟩ := h
-      exact ⟨qs, hq, fun q hq' => by have := hge q hq'; have := tol_pos; linarith, h1, h2⟩
+  cases r <;> exact h
+
+theorem rowT_iff (r : Rep) (row : List XRat) : rowT r row ↔ RowS row := by
+  cases r <;> exact Iff.rfl
 
 theorem rowT_to_rowP (r : Rep) {row : List XRat} (h : rowT r row) : rowP r row := by
   cases r with
@@ -81,7 +96,7 @@ theorem rowT_to_rowP (r : Rep) {row : List XRat} (h : rowT r row) : rowP r row :
       obtain ⟨qs, hq, hge, h1, h2⟩ := h
       have ht := tol_pos
       have hl : (0 : Rat) ≤ (row.length : Rat) := Nat.cast_nonneg _
-      refine ⟨qs, hq, hge, ?_, ?_⟩ <;> nlinarith
+      refine ⟨qs, hq, fun q hq' => by have := hge q hq'; linarith, ?_, ?_⟩ <;> nlinarith
 
 theorem ValidT.toValid {k : Kind} {s : St} (h : ValidT k s) : Valid k s :=
   ⟨h.disc, fun m hm row hr => rowT_to_rowP _ (h.T m hm row hr), fun m hm row hr => rowT_to_rowP _ (h.Om m hm row hr)⟩
@@ -92,7 +107,27 @@ theorem eigen_rowsT (r : Rep) (t : Tab3) (h : checkEigen r t = true) : RowsOK (r
   have := h m hm row hrow
   cases r with
   | dense => exact (isProbDense_iff row).1 this
-  | sparse => exact isProbSparse_sound row this
+  | sparse => exact (isProbSparse_iff row).1 this
+
+theorem RowS.entries_nonneg {row : List XRat} (h : RowS row) : ∀ v ∈ row, ∃ q : Rat, v = .fin q ∧ 0 ≤ q := by
+  obtain ⟨qs, hq, hge, _, _⟩ := h
+  subst hq
+  intro v hv
+  obtain ⟨q, hq, rfl⟩ := List.mem_map.1 hv
+  exact ⟨q, rfl, hge q hq⟩
+
+/-- **a sparse table the Eigen setters / NO-CHECK-free constructors accept has NO negative stored entry** (and no nan/inf):
+    exact on the sign since fixes/C05-2; before, entries down to -tol/2 were let through -/
+theorem sparse_accepted_no_negative (t : Tab3) (h : checkEigen .sparse t = true) :
+    ∀ m ∈ t, ∀ row ∈ m, ∀ v ∈ row, ∃ q : Rat, v = .fin q ∧ 0 ≤ q :=
+  fun m hm row hr => (eigen_rowsT .sparse t h m hm row hr).entries_nonneg
+
+/-- … and so has every table of every valid object of every class, dense or sparse, after any history (`run_valid`) -/
+theorem valid_no_negative (k : Kind) (s : St) (hv : ValidT k s) :
+    (∀ m ∈ s.T, ∀ row ∈ m, ∀ v ∈ row, ∃ q : Rat, v = .fin q ∧ 0 ≤ q) ∧
+    (∀ m ∈ s.Om, ∀ row ∈ m, ∀ v ∈ row, ∃ q : Rat, v = .fin q ∧ 0 ≤ q) :=
+  ⟨fun m hm row hr => ((rowT_iff _ row).1 (hv.T m hm row hr)).entries_nonneg,
+   fun m hm row hr => ((rowT_iff _ row).1 (hv.Om m hm row hr)).entries_nonneg⟩
 
 /-- what a 3D-container setter commits, given everything it tested (template test on the supplied rows; for sparse
     storage also the stored rows) -/
